@@ -174,13 +174,13 @@ Verdict run(const Ctx & x, const Case & c)
                 return std::string("row-major storage differs from the generated contents");
             }
         } else {
-            // curve layouts: the non-padding cells are a permutation of the generated cells
+            // curve layouts: every generated cell value is somewhere in the storage (as a multiset); what the
+            // padding cells hold is not part of the property
             Words a(storage), b(c.data);
-            b.resize(a.size(), 0);   // padding cells are value-initialised
             std::sort(a.begin(), a.end());
             std::sort(b.begin(), b.end());
-            if (a != b) {
-                return std::string("curve storage is not a permutation of the generated contents plus zero padding");
+            if (!std::includes(a.begin(), a.end(), b.begin(), b.end())) {
+                return std::string("curve storage does not contain the generated contents (as a multiset)");
             }
         }
         for (uint64_t w : c.data) {
